@@ -101,8 +101,10 @@ def gen_conv_cmd(rng, depth=0, path="p", stats=None):
             a["action"] = pick(rng, ["set", "set", "append", None])
             rr = rng.random()
             if rr < 0.12:
-                a["num"] = (0, 1)
-                a["dmissing"] = [pick(rng, [b"dm", b"a,b"])] + ([b"dm2"] if rng.random() < 0.2 else [])
+                a["num"] = pick(rng, [(0, 1), (0, 1), (0, None), (0, 2)])
+                if rng.random() < 0.55:
+                    a["dmissing"] = [pick(rng, [b"dm", b"a,b"])] + ([b"dm2"] if rng.random() < 0.2 else [])
+                # without default_missing_value an occurrence without a value is an EMPTY occurrence group
             elif rr < 0.24:
                 a["num"] = (2, 2)
             elif rr < 0.36:
